@@ -60,8 +60,10 @@ def luba_event_received(frame_bytes, nbits=None, tick=0, info=None):
     return luba_frame(0x31, [tick >> 8, tick & 0xFF, 0, 0x80 | info] + list(frame_bytes))
 
 
-def luba_devinfo(article=24166096):
-    return luba_frame(0x21, list((0x1234567890AB).to_bytes(6, "big")) + list((7).to_bytes(8, "big")) + [1, 2] +
+def luba_devinfo(article=24166096, gtin=0x1234567890AB, dev_id=7, pcb=1, assembly=2):
+    """Device information reply: GTIN (6 bytes), device id (8), PCB version (1), assembly version (1), article number (4),
+    all unsigned, most significant byte first."""
+    return luba_frame(0x21, list(gtin.to_bytes(6, "big")) + list(dev_id.to_bytes(8, "big")) + [pcb, assembly] +
                       list(article.to_bytes(4, "big")))
 
 
@@ -135,7 +137,9 @@ def luba_deframe(data, long_policy="drop"):
             if ln != 20:
                 malformed = True
                 continue
-            items.append(("info", int.from_bytes(bytes(payload[16:20]), "big")))
+            pl = bytes(payload)
+            items.append(("info", int.from_bytes(pl[16:20], "big"), int.from_bytes(pl[0:6], "big"), int.from_bytes(pl[6:14], "big"),
+                          pl[14], pl[15]))
         elif cmd == 0x2B:
             if ln < 2:
                 malformed = True
